@@ -18,9 +18,11 @@ META = {
             "and the property's own oracle (packets out == packets in, frame types equal) is evaluated on the real code's answers.",
     "note": "Trusted: Lean kernel; the tie of the hand-written loops (Model/C25.lean) to slip.go/slipmux.go is the correspondence run "
             "(differential, not a proof); constants/table/frame predicates are regenerated and checked by theorems. Transport model: every "
-            "Read returns >= 1 byte until EOF, and EOF is reported by a read of 0 bytes. Outside that model (recorded as observations, not "
-            "violations): a 0-byte read in the middle of an escape loses the ESC state; a transport that returns the last byte together "
-            "with io.EOF makes the reader drop that byte (the final END), so the last packet is reported with isPrefix=true. MuxWF excludes: "
+            "Read returns >= 1 byte until EOF, and EOF is reported by a read of 0 bytes. Outside that model: a 0-byte read in the middle of an escape loses the ESC state (observation only, "
+            "DESIGN C25); a transport that returns its last byte together with io.EOF (n>0 and err!=nil in one Read, legal for an io.Reader) "
+            "makes the reader drop that byte (the final END), so the last packet is reported with isPrefix=true: exercised by the oracle-only "
+            "`slipeof` ops and recorded as known finding slip:byte-returned-together-with-error-is-dropped (proposed_fixes/C25-read-byte-with-error.diff). "
+            "MuxWF excludes: "
             "frame bytes END/ESC/0 (filtered by the reader), IP frame bytes that are not the payload's first byte (the writer does not prepend "
             "them), CoAP payloads shorter than 4 bytes (dropped by design); the excluded points are proved to behave that way in the model "
             "and compared with the real code.",
